@@ -30,9 +30,9 @@ theorem compile_correct {Φ : FunTable} {σ σ' : Store} (e : Expr)
     `(g x)` is compiled while `g` is unknown, then `g` is defined -/
 example : ∃ (Φ : FunTable) (σ σ' : Store) (e : Expr),
     Ext (compile σ e).2 σ' ∧ Rel Φ σ' ∧ eval Φ 10 [] e = .val (.int 8) := by
-  refine ⟨[("g", ⟨["x"], .prim .add (.var "x") (.const 1)⟩)], Store.empty,
-    define (compile Store.empty (.call "g" [.const 7])).2 "g" ["x"] (.prim .add (.var "x") (.const 1)),
-    .call "g" [.const 7], define_ext _ _ _ _, define_rel (compile_rel rel_empty _) _ _ _, by decide⟩
+  refine ⟨[("g", .simple ["x"] (.prim .add (.var "x") (.const 1)))], Store.empty,
+    define (compile Store.empty (.call "g" [.const 7])).2 "g" (.simple ["x"] (.prim .add (.var "x") (.const 1))),
+    .call "g" [.const 7], define_ext _ _ _, define_rel (compile_rel rel_empty _) _ _, by decide⟩
 
 /-- Histories: the compiling top-level loop computes what the direct one computes, whatever the
     interleaving of definitions, redefinitions, evaluations and re-evaluations of kept code
@@ -46,9 +46,12 @@ theorem runC_eq_run (fuel : Nat) :
   | cons form rest ih =>
     intro Φ σ hist objs hrel hobjs
     cases form with
-    | defun f ps b =>
+    | defun f lam =>
       simp only [runC, run]
-      rw [ih (define_rel hrel f ps b) (hobjs.mono (define_ext σ f ps b))]
+      rw [ih (define_rel hrel f lam) (hobjs.mono (define_ext σ f lam))]
+    | undef f =>
+      simp only [runC, run]
+      rw [ih (undefine_rel hrel f) (hobjs.mono (undefine_ext σ f))]
     | expr e =>
       simp only [runC, run]
       have hrel' := compile_rel hrel e
@@ -73,15 +76,15 @@ theorem runC_correct (fuel : Nat) (forms : List Form) :
 /-- the pre-survey example: `(defun g (x) (h x 2)) (defun h (a b) (+ a b)) (g 1)` is 3 —
     the forward call `(h x 2)` passes both arguments -/
 example : runC 10 Store.empty []
-    [.defun "g" ["x"] (.call "h" [.var "x", .const 2]),
-     .defun "h" ["a", "b"] (.prim .add (.var "a") (.var "b")),
+    [.defun "g" (.simple ["x"] (.call "h" [.var "x", .const 2])),
+     .defun "h" (.simple ["a", "b"] (.prim .add (.var "a") (.var "b"))),
      .expr (.call "g" [.const 1])]
     = [.val (.sym "g"), .val (.sym "h"), .val (.int 3)] := by decide
 
 /-! ## defs_commute -/
 
 /-- the definitions as top-level forms -/
-def defForm (d : String × Lam) : Form := .defun d.1 d.2.params d.2.body
+def defForm (d : String × Lam) : Form := .defun d.1 d.2
 
 /-- **defs_commute.** For definitions with distinct names, every permutation of the definitions
     followed by the same body (any forms: calls, mutual recursion through the definitions,
@@ -107,8 +110,8 @@ theorem defs_commute_compiled (fuel : Nat) (defs defs' : List (String × Lam)) (
 /-- mutual recursion, callers first or callees first:
     `(defun ev (n) (if (< n 1) 1 (od (- n 1))))  (defun od (n) (if (< n 1) 0 (ev (- n 1))))` -/
 example :
-    let ev : String × Lam := ("ev", ⟨["n"], .ite (.prim .lt (.var "n") (.const 1)) (.const 1) (.call "od" [.prim .sub (.var "n") (.const 1)])⟩)
-    let od : String × Lam := ("od", ⟨["n"], .ite (.prim .lt (.var "n") (.const 1)) (.const 0) (.call "ev" [.prim .sub (.var "n") (.const 1)])⟩)
+    let ev : String × Lam := ("ev", .simple ["n"] (.ite (.prim .lt (.var "n") (.const 1)) (.const 1) (.call "od" [.prim .sub (.var "n") (.const 1)])))
+    let od : String × Lam := ("od", .simple ["n"] (.ite (.prim .lt (.var "n") (.const 1)) (.const 0) (.call "ev" [.prim .sub (.var "n") (.const 1)])))
     [ev, od].Perm [od, ev] ∧ ([ev, od].map (·.1)).Nodup ∧
     runC 40 Store.empty [] ([od, ev].map defForm ++ [.expr (.call "ev" [.const 5])])
       = [.val (.sym "od"), .val (.sym "ev"), .val (.int 0)] := by
@@ -136,8 +139,8 @@ theorem caching_invisible {Φ : FunTable} {σ : Store} {e : Expr} {c : Code}
 /-- caching really rewrites: the `late` call site of `(g 7)` becomes a pointer to the cell of `g` -/
 example : ∃ (Φ : FunTable) (σ : Store) (e : Expr) (c : Code),
     Rel Φ σ ∧ Compiled σ e c ∧ c = .call .late "g" [.const 7] ∧ cacheAll σ c = .call (.cell 0) "g" [.const 7] := by
-  refine ⟨[("g", ⟨["x"], .var "x"⟩)], define Store.empty "g" ["x"] (.var "x"), .call "g" [.const 7],
-    embed (.call "g" [.const 7]), define_rel rel_empty _ _ _, embed_compiled _ _, rfl, rfl⟩
+  refine ⟨[("g", .simple ["x"] (.var "x"))], define Store.empty "g" (.simple ["x"] (.var "x")), .call "g" [.const 7],
+    embed (.call "g" [.const 7]), define_rel rel_empty _ _, embed_compiled _ _, rfl, rfl⟩
 
 /-- **reeval_stable (histories).** Evaluating the kept code object of the `j`-th form `k` more times
     gives `k` times the result of evaluating the form directly in the current table — the first
@@ -153,24 +156,75 @@ theorem reeval_k {Φ : FunTable} {σ : Store} {hist : List Expr} {objs : List Co
 
 /-! ## redefinition_takes_effect -/
 
-/-- **redefinition_takes_effect.** A code object compiled before `(defun f ps b)` — a caller of
+/-- **redefinition_takes_effect.** A code object compiled before `(defun f …)` — a caller of
     `f` compiled against the old body or against the placeholder — evaluated after the
-    (re)definition behaves like its source form in the table where `f` has the new body. -/
+    (re)definition behaves like its source form in the table where `f` has the new definition
+    (parameters, `&optional`/`&key` defaults, `&aux` init forms and body). -/
 theorem redefinition_takes_effect {Φ : FunTable} {σ : Store} {e : Expr} {c : Code}
-    (hrel : Rel Φ σ) (hc : Compiled σ e c) (f : String) (ps : List String) (b : Expr)
+    (hrel : Rel Φ σ) (hc : Compiled σ e c) (f : String) (lam : Lam)
     (fuel : Nat) (env : Env) :
-    evalCode (define σ f ps b) fuel env c = eval ((f, ⟨ps, b⟩) :: Φ) fuel env e :=
-  evalCode_eq_eval (define_rel hrel f ps b) fuel env (hc.mono (define_ext σ f ps b))
+    evalCode (define σ f lam) fuel env c = eval ((f, lam) :: Φ) fuel env e :=
+  evalCode_eq_eval (define_rel hrel f lam) fuel env (hc.mono (define_ext σ f lam))
 
 /-- …and so on for every further redefinition: `g` compiled between the first and the second
     redefinition of `f` sees the third body
     `(defun f () 1) (defun g () (f)) (defun f () 2) (defun h () (f)) (defun f () 3) (g) (h) (f)` -/
 example : runC 10 Store.empty []
-    [.defun "f" [] (.const 1), .defun "g" [] (.call "f" []), .defun "f" [] (.const 2),
-     .defun "h" [] (.call "f" []), .defun "f" [] (.const 3),
+    [.defun "f" (.simple [] (.const 1)), .defun "g" (.simple [] (.call "f" [])), .defun "f" (.simple [] (.const 2)),
+     .defun "h" (.simple [] (.call "f" [])), .defun "f" (.simple [] (.const 3)),
      .expr (.call "g" []), .expr (.call "h" []), .expr (.call "f" []), .again 1]
     = [.val (.sym "f"), .val (.sym "g"), .val (.sym "f"), .val (.sym "h"), .val (.sym "f"),
        .val (.int 3), .val (.int 3), .val (.int 3), .val (.int 3)] := by decide
+
+/-! ## fmakunbound -/
+
+/-- **undefine_takes_effect.** After `(fmakunbound 'f)` a code object compiled while `f` was defined
+    behaves like its source form in the table without `f`: its calls of `f` fail as an undefined
+    function exactly like calls evaluated from the list form — the removed body is not kept alive
+    by compiled callers. -/
+theorem undefine_takes_effect {Φ : FunTable} {σ : Store} {e : Expr} {c : Code}
+    (hrel : Rel Φ σ) (hc : Compiled σ e c) (f : String) (fuel : Nat) (env : Env) :
+    evalCode (undefine σ f) fuel env c = eval (undefTable Φ f) fuel env e :=
+  evalCode_eq_eval (undefine_rel hrel f) fuel env (hc.mono (undefine_ext σ f))
+
+/-- **undefine_then_define.** `fmakunbound` followed (after any compilations in between, store `σ'`)
+    by a new `defun`: callers compiled before the `fmakunbound`, between the two, or afterwards all
+    use the new definition. -/
+theorem undefine_then_define {Φ : FunTable} {σ σ' : Store} {e : Expr} {c : Code}
+    (hc : Compiled σ e c) (f : String)
+    (hext : Ext (undefine σ f) σ') (hrel' : Rel (undefTable Φ f) σ') (lam : Lam)
+    (fuel : Nat) (env : Env) :
+    evalCode (define σ' f lam) fuel env c = eval ((f, lam) :: undefTable Φ f) fuel env e :=
+  evalCode_eq_eval (define_rel hrel' f lam) fuel env
+    (((hc.mono (undefine_ext σ f)).mono hext).mono (define_ext σ' f lam))
+
+/-- `(defun f (x) (+ x 1)) (defun before (x) (f x)) (fmakunbound 'f) (before 10) (defun between (x) (f x))
+    (defun f (x) (* x 2)) (defun after (x) (f x)) (before 10) (between 10) (after 10)` -/
+example : runC 10 Store.empty []
+    [.defun "f" (.simple ["x"] (.prim .add (.var "x") (.const 1))),
+     .defun "before" (.simple ["x"] (.call "f" [.var "x"])),
+     .undef "f",
+     .expr (.call "before" [.const 10]),
+     .defun "between" (.simple ["x"] (.call "f" [.var "x"])),
+     .defun "f" (.simple ["x"] (.prim .mul (.var "x") (.const 2))),
+     .defun "after" (.simple ["x"] (.call "f" [.var "x"])),
+     .expr (.call "before" [.const 10]), .expr (.call "between" [.const 10]), .expr (.call "after" [.const 10])]
+    = [.val (.sym "f"), .val (.sym "before"), .val (.sym "f"), .err (.undefinedFunction "f"),
+       .val (.sym "between"), .val (.sym "f"), .val (.sym "after"),
+       .val (.int 20), .val (.int 20), .val (.int 20)] := by decide
+
+/-! ## lambda lists: defaults and `&aux` init forms on the first and on every later call -/
+
+/-- `(defun f (x &optional (o 5) &key (k 7) &aux (y (+ x o)) (z (* y k))) (- z x))`
+    called three times with different arguments and once more from the kept code object:
+    the `&aux` init forms are evaluated on every call -/
+example : runC 10 Store.empty []
+    [.defun "f" ⟨⟨["x"], [("o", .int 5)], [("k", .int 7)]⟩,
+        [("y", .prim .add (.var "x") (.var "o")), ("z", .prim .mul (.var "y") (.var "k"))],
+        .prim .sub (.var "z") (.var "x")⟩,
+     .expr (.call "f" [.const 1]), .expr (.call "f" [.const 2, .const 3]),
+     .expr (.call "f" [.const 2, .const 3, .kw "k", .const 10]), .again 0, .again 2]
+    = [.val (.sym "f"), .val (.int 41), .val (.int 33), .val (.int 48), .val (.int 41), .val (.int 48)] := by decide
 
 /-! ## what the hypotheses exclude: the two defects of the unchanged tree, in model terms
 
@@ -179,16 +233,16 @@ its name; the following code objects violate it and evaluate differently from th
 
 /-- defect 1 (placeholder creator ignores `args`): the code object `(h)` for the source `(h 1 2)` -/
 example :
-    let Φ : FunTable := [("h", ⟨["a", "b"], .prim .add (.var "a") (.var "b")⟩)]
-    let σ := define Store.empty "h" ["a", "b"] (.prim .add (.var "a") (.var "b"))
+    let Φ : FunTable := [("h", .simple ["a", "b"] (.prim .add (.var "a") (.var "b")))]
+    let σ := define Store.empty "h" (.simple ["a", "b"] (.prim .add (.var "a") (.var "b")))
     evalCode σ 10 [] (.call (.cell 0) "h" []) = .err (.arity "h") ∧
     eval Φ 10 [] (.call "h" [.const 1, .const 2]) = .val (.int 3) := by decide
 
 /-- defect 2 (a call site pointing to a cell that is no longer the name's cell, as produced when a
     redefinition re-points the name instead of sharing the cell): stale body -/
 example :
-    let Φ : FunTable := [("f", ⟨[], .const 2⟩)]
-    let σ : Store := ⟨[("f", 1)], [some ⟨[], .const 1⟩, some ⟨[], .const 2⟩]⟩
+    let Φ : FunTable := [("f", .simple [] (.const 2))]
+    let σ : Store := ⟨[("f", 1)], [some ⟨⟨[], [], []⟩, [], .const 1⟩, some ⟨⟨[], [], []⟩, [], .const 2⟩]⟩
     evalCode σ 10 [] (.call (.cell 0) "f" []) = .val (.int 1) ∧
     eval Φ 10 [] (.call "f" []) = .val (.int 2) ∧ ¬ RefOK σ (.cell 0) "f" := by
   refine ⟨by decide, by decide, ?_⟩
